@@ -16,25 +16,30 @@ package domains
 //@   ensures result == self.cause
 
 //@ spec func domainOf(e error) Domain
+
 //@ unfold domainOf(e) = typeis(e, *withDomain) ? e.(*withDomain).domain : (cause1(e) != nil ? domainOf(cause1(e)) : NoDomain)
 
 //@ method (*withDomain).ErrorKeyMarker
 //@   props C02 C08 C11
 //@   ensures result == self.domain
+
 //@ method (*withDomain).SafeDetails
 //@   props C03 C11 C12
 //@   ensures len(result) == 1 && result[0] == self.domain
+//@   ensures[C03] safeSeq(result)
 
 //@ func WithDomain
 //@   props C10 C07 C12
 //@   ensures err == nil ==> result == nil
 //@   ensures err != nil ==> typeis(result, *withDomain) && result.(*withDomain).cause == err && result.(*withDomain).domain == domain
+//@   requires[C03,C12] safeS(domain)
 
 //@ func decodeWithDomain
 //@   props C05 C01 C11
 //@   requires cause != nil
 //@   ensures len(details) == 0 ==> result == nil
 //@   ensures len(details) > 0 ==> typeis(result, *withDomain) && result.(*withDomain).cause == cause && result.(*withDomain).domain == details[0]
+//@   requires[C03,C12] safeSeq(details)
 
 //@ func GetDomain
 //@   props C07 C11 C15
@@ -44,22 +49,29 @@ package domains
 //@ func PackageDomainAtDepth
 //@   props C16
 //@   ensures $dom == lvl - 1 - depth
+
 //@ func PackageDomain
 //@   props C16
 //@   ensures $dom == lvl - 1
+
 //@ func New
 //@   props C16 C10
 //@   ensures result != nil
 //@   ensures[C16] $dom == lvl - 1
+
 //@ func Handled
 //@   props C16 C10 C07
 //@   ensures err == nil ==> result == nil
 //@   ensures[C16] $dom == lvl - 1
+
 //@ func HandledInDomain
 //@   props C10 C07
 //@   ensures err == nil ==> result == nil
 //@   ensures err != nil ==> typeis(result, *withDomain) && result.(*withDomain).domain == domain && typeis(result.(*withDomain).cause, *barriers.barrierErr)
+
 //@ func HandledInDomainWithMessage
 //@   props C10 C07
 //@   ensures err == nil ==> result == nil
 //@   ensures err != nil ==> typeis(result, *withDomain) && result.(*withDomain).domain == domain && typeis(result.(*withDomain).cause, *barriers.barrierErr)
+
+//@ type withDomain invariant[C03,C12] safeS(self.domain)
